@@ -30,7 +30,7 @@ LEVEL_TEXT = ("Machine-checked proof (Coq, closed under the global context): ove
               "server has replied to every request.  Both models are tied to the source by differential runs of "
               "the model's own definitions (vm_compute) against the real classes on generated streams every run.")
 LEVEL_NOTE = ("Trusted: Coq kernel + vm_compute; hand-written model coq/Model/C30.v validated by the correspondence "
-              "runs; _check_file is a black box assumed to send one packet (C32); prefetch registrations "
+              "runs; which digests _check_file computes is C32's (only its response discipline is modelled here); prefetch registrations "
               "(fileobj = the file) and their _async_response path are C28's and not in the client model; "
               "socket/Channel/thread timing is exercised only by the watchdog runs; request numbers < 2^32.")
 TECHNIQUE = "Coq proof (case analysis / invariants over request streams and client programs) + vm_compute differential correspondence + watchdog runs"
@@ -94,8 +94,6 @@ def make_server_classes():
     from paramiko import SFTPAttributes, SFTPHandle, SFTPServerInterface
 
     class Handle(SFTPHandle):
-        blob = bytes(range(256)) * 3
-
         def __init__(self, si):
             SFTPHandle.__init__(self)
             self.si = si
@@ -104,19 +102,58 @@ def make_server_classes():
             self.si.out(closing=True)
 
         def read(self, offset, length):
-            if self.si.in_cf:
-                return self.blob[offset:offset + length]
-            return self.si.out()
+            si = self.si
+            if si.cf is None:
+                return si.out()
+            # inside _check_file: the scripted result for this read position; what was actually
+            # returned is recorded and handed to the model as its oracle input
+            pos = len(si.cf_rec)
+            act = si.cf["script"].get(pos, "full")
+            blob = si.cf["blob"]
+            if act == "full":
+                data = blob[offset:offset + length]
+            elif act == "eof":
+                data = b""
+            elif act[0] == "short":
+                data = blob[offset:offset + min(length, act[1])]
+            elif act[0] == "code":
+                si.cf_rec.append(("RdCode", act[1]))
+                return act[1]
+            elif act[0] == "str":
+                si.cf_rec.append(("RdStr", act[1]))
+                return "s" * act[1]
+            elif act == "other":
+                si.cf_rec.append(("RdOther",))
+                return None
+            else:
+                si.cf_rec.append(("RdRaise",))
+                raise ValueError("scripted read failure")
+            si.cf_rec.append(("RdBytes", len(data)))
+            return data
 
         def write(self, offset, data):
             return self.si.out()
 
         def stat(self):
-            if self.si.in_cf:
+            si = self.si
+            if si.cf is None:
+                return si.out()
+            cb = si.cf["stat"]
+            if cb[0] == "CbAttr":
                 a = SFTPAttributes()
-                a.st_size = len(self.blob)
+                a.st_size = si.cf["size"]
                 return a
-            return self.si.out()
+            if cb[0] == "CbCode":
+                return cb[1]
+            if cb[0] == "CbBytes":
+                return (b"x" * cb[1]) if cb[1] % 2 == 0 else ("x" * cb[1])
+            if cb[0] == "CbRaise":
+                raise ValueError("scripted stat failure")
+            if cb[0] == "CbHandle":
+                return self
+            if cb[0] == "CbList":
+                return []
+            return None
 
         def chattr(self, attr):
             return self.si.out()
@@ -124,7 +161,8 @@ def make_server_classes():
     class SI(SFTPServerInterface):
         def __init__(self, server, *a, **k):
             self.cur = ("CbOther",)
-            self.in_cf = False
+            self.cf = None          # check-file script of the current request
+            self.cf_rec = []
             self.calls = 0
 
         def out(self, closing=False):
@@ -247,6 +285,8 @@ def drive_server(reqs):
     cf_out = {}
 
     def read_packet():
+        if state["i"] >= 1 and si.cf is not None:
+            cf_out[state["i"]] = list(si.cf_rec)
         state["i"] += 1
         i = state["i"]
         if i == 0:
@@ -255,28 +295,15 @@ def drive_server(reqs):
             raise _EndOfScript()
         q = reqs[i - 1]
         si.cur = q["cb"]
+        si.cf = q.get("cf") if (q["t"] == 200 and q["tag"] == 0 and q["shape"] == "normal") else None
+        si.cf_rec = []
         return q["t"], encode_request(q)
 
     def send_packet(t, msg):
         sent.append((state["i"], t, msg.asbytes()))
 
-    orig_cf = srv._check_file
-
-    def check_file(request_number, msg):
-        n0 = len(sent)
-        si.in_cf = True
-        try:
-            orig_cf(request_number, msg)
-        except Exception:
-            cf_out[state["i"]] = ("Exc", [parse_response(t, p) for (_, t, p) in sent[n0:]])
-            raise
-        finally:
-            si.in_cf = False
-        cf_out[state["i"]] = ("Done", [parse_response(t, p) for (_, t, p) in sent[n0:]])
-
     srv._read_packet = read_packet
     srv._send_packet = send_packet
-    srv._check_file = check_file
     srv.start_subsystem("sftp", None, _FakeChannel())
     per = [[] for _ in reqs]
     for i, t, p in sent:
@@ -346,11 +373,27 @@ def gen_stream(rng, n):
         if t == 200:
             q["tag"] = rng.choice([0, 0, 1, 2])
             if q["tag"] == 0:
-                q["algs"] = rng.choice([b"md5", b"sha1", b"sha1,md5", b"crc32", b"", b"md5,\xff"])
-                blob = 768
-                q["cf_start"] = rng.choice([0, 0, 1, 100, 512])
-                q["cf_len"] = rng.choice([0, 256, blob - q["cf_start"], rng.randrange(1, blob - q["cf_start"] + 1)])
-                q["cf_block"] = rng.choice([0, 256, 300, 1024, 1, 255])
+                q["algs"] = rng.choice([b"md5", b"sha1", b"sha1,md5", b"md5", b"sha1", b"crc32", b"", b"md5,\xff",
+                                        b"crc32,sha1", b"md5x"])
+                big = rng.random() < 0.08
+                blob = bytes((7 * k + 3) % 256 for k in range(256)) * (600 if big else 8)
+                bn = len(blob)
+                q["cf_start"] = rng.choice([0, 0, 0, 1, 100, 512, bn - 1, bn, bn + 1000])
+                q["cf_len"] = rng.choice([0, 0, 256, 1024, max(1, bn - q["cf_start"]), bn, 5000, 2 ** 40,
+                                          rng.randrange(1, bn + 1)])
+                q["cf_block"] = rng.choice([0, 0, 256, 300, 1024, 1, 255, 70000])
+                script = {}
+                if rng.random() < 0.7:
+                    # one misbehaving read at a chosen position (every position of an 8-block range is reachable)
+                    pos = rng.randrange(0, 10)
+                    script[pos] = rng.choice([("code", rng.choice([1, 2, 3, 4, 5, 8, 9, -1, 2 ** 32])), ("code", 3),
+                                              ("short", rng.choice([1, 100, 255])), "eof", ("str", 4), "other", "raise"])
+                    if rng.random() < 0.3:
+                        script[rng.randrange(0, 10)] = ("short", rng.choice([1, 17]))
+                stat = rng.choice([("CbAttr",), ("CbAttr",), ("CbAttr",), ("CbCode", rng.choice([2, 3, 4, -1])),
+                                   ("CbRaise",), ("CbOther",), ("CbBytes", rng.choice([0, 3, 4])), ("CbHandle",)])
+                size = rng.choice([bn, bn, bn, 0, q["cf_start"], max(0, q["cf_start"] - 5), bn + 4000])
+                q["cf"] = {"blob": blob, "script": script, "stat": stat, "size": size}
         sh = rng.random()
         if sh < 0.05:
             q["shape"] = "truncated"
@@ -386,17 +429,90 @@ def gen_stream(rng, n):
     return reqs
 
 
-def coq_req(q, cf):
-    cfv = ("Exc", []) if cf is None else (cf[0], [tuple(x) for x in cf[1]])
-    return "(mkReq %s)" % " ".join(coq(x) for x in (q["t"], q["id"], q["text_ok"], q["h"], q["tag"], q["cb"], cfv))
+def _cf_req(rid, h, blob, start, length, block, script, stat=("CbAttr",), size=None, algs=b"md5"):
+    return {"t": 200, "id": rid, "text_ok": True, "tag": 0, "shape": "normal", "cb": ("CbOther",), "algs": algs,
+            "cf_start": start, "cf_len": length, "cf_block": block, "hbytes": h, "h": hnum(h), "hv": h == b"hx1",
+            "cf": {"blob": blob, "script": script, "stat": stat, "size": len(blob) if size is None else size}}
+
+
+def _open_req(rid):
+    return {"t": 3, "id": rid, "text_ok": True, "tag": 2, "shape": "normal", "cb": ("CbHandle",), "algs": b"md5",
+            "cf_start": 0, "cf_len": 0, "cf_block": 0, "hbytes": b"", "h": -1, "hv": False}
+
+
+CF_ACTIONS = [("code", 3), ("code", 4), ("code", 1), ("code", -1), ("short", 1), ("short", 100), "eof", ("str", 4),
+              "other", "raise"]
+
+
+def cf_systematic_streams():
+    """check-file on a valid handle: a 2048-byte file hashed in 8 blocks of 256, each kind of misbehaving
+    read at EVERY read position (0..8); plus one block needing three 64 KiB reads, each failing in turn."""
+    blob = bytes((7 * k + 3) % 256 for k in range(256)) * 8
+    big = bytes((5 * k + 1) % 256 for k in range(256)) * 600
+    streams = []
+    for act in CF_ACTIONS:
+        reqs = [_open_req(1)]
+        for pos in range(9):
+            reqs.append(_cf_req(100 + pos, b"hx1", blob, 0, 2048 if pos % 2 else 0, 256, {pos: act}))
+        for pos in range(3):
+            reqs.append(_cf_req(200 + pos, b"hx1", big, 0, len(big), 0, {pos: act}))
+        streams.append(reqs)
+    return streams
+
+
+def gen_cf_stream(rng):
+    """Random check-file requests on a valid handle (and a few on invalid ones)."""
+    reqs = [_open_req(rng.randrange(2 ** 32))]
+    for _ in range(rng.randrange(3, 12)):
+        bigf = rng.random() < 0.1
+        blob = bytes((7 * k + 3) % 256 for k in range(256)) * (600 if bigf else rng.choice([1, 4, 8]))
+        bn = len(blob)
+        start = rng.choice([0, 0, 0, 1, 100, 255, bn - 1, bn, bn + 1000])
+        length = rng.choice([0, 0, 256, 1024, max(1, bn - start), bn, 5000, 2 ** 40, rng.randrange(1, bn + 1)])
+        block = rng.choice([0, 0, 256, 256, 300, 1024, 1, 255, 70000])
+        script = {}
+        if rng.random() < 0.75:
+            script[rng.randrange(0, 10)] = rng.choice(CF_ACTIONS)
+        if rng.random() < 0.3:
+            script.setdefault(rng.randrange(0, 10), ("short", rng.choice([1, 17])))
+        stat = rng.choice([("CbAttr",)] * 5 + [("CbCode", rng.choice([2, 3, 4, -1])), ("CbRaise",), ("CbOther",),
+                                                ("CbBytes", rng.choice([0, 3, 4])), ("CbHandle",)])
+        size = rng.choice([bn, bn, bn, 0, start, max(0, start - 5), bn + 4000])
+        h = b"hx1" if rng.random() < 0.9 else rng.choice([b"hx2", b"", b"nope"])
+        algs = rng.choice([b"md5", b"sha1", b"sha1,md5", b"crc32,sha1", b"md5", b"crc32", b"", b"md5,\xff"])
+        reqs.append(_cf_req(rng.randrange(2 ** 32), h, blob, start, length, block, script, stat, size, algs))
+    return reqs
+
+
+def coq_req(q, rec):
+    """rec: the results of the handle.read calls _check_file actually made (oracle input of the model)."""
+    if q["t"] == 200 and q["tag"] == 0 and "cf" in q and q["shape"] == "normal":
+        algs = q["algs"]
+        try:
+            names = algs.decode("utf-8").split(",")
+            list_ok = True
+        except UnicodeDecodeError:
+            names, list_ok = [], False
+        alg_ok = any(x in ("md5", "sha1") for x in names)
+        cf = "(mkCf %s)" % " ".join(coq(x) for x in (list_ok, alg_ok, q["cf_start"], q["cf_len"], q["cf_block"],
+                                                     q["cf"]["stat"], q["cf"]["size"], [tuple(r) for r in rec or []]))
+    else:
+        cf = "cf_none"
+    return "(mkReq %s %s)" % (" ".join(coq(x) for x in (q["t"], q["id"], q["text_ok"], q["h"], q["tag"], q["cb"])), cf)
 
 
 def server_part(ctx, nstreams):
     rng = ctx.rng
     cases = []
     metas = []
-    for s in range(nstreams):
-        reqs = gen_stream(rng, rng.randrange(4, 16))
+    fixed = cf_systematic_streams()
+    for s in range(nstreams + len(fixed)):
+        if s < len(fixed):
+            reqs = fixed[s]
+        elif s % 4 == 0:
+            reqs = gen_cf_stream(rng)
+        else:
+            reqs = gen_stream(rng, rng.randrange(4, 16))
         st, res = with_watchdog(lambda: drive_server(reqs), 30.0)
         if st == "hang":
             ctx.fail("server-stops-answering", "SFTPServer.start_subsystem did not finish a scripted request stream",
@@ -419,7 +535,13 @@ def server_part(ctx, nstreams):
                       nontrivial=True, kind="server:" + (nm if t in CMD.values() else "unknown-type"))
             flat += [len(packets)] + [x for p in packets for x in p]
             case = {"request": {"type": t, "id": q["id"], "handle": q["hbytes"], "callback": q["cb"],
-                                "text_ok": q["text_ok"], "tag": q["tag"], "shape": q["shape"]},
+                                "text_ok": q["text_ok"], "tag": q["tag"], "shape": q["shape"],
+                                "check_file": None if "cf" not in q else {
+                                    "algs": q["algs"], "start": q["cf_start"], "length": q["cf_len"],
+                                    "block_size": q["cf_block"], "file_size": len(q["cf"]["blob"]),
+                                    "stat": q["cf"]["stat"], "stat_size": q["cf"]["size"],
+                                    "read_script": sorted(q["cf"]["script"].items()),
+                                    "reads_made": cf_out.get(i + 1)}},
                     "stream_prefix": [(r["t"], r["id"], r["hbytes"], r["cb"], r["text_ok"], r["tag"], r["shape"])
                                       for r in reqs[:i]]}
             if len(packets) != 1:
@@ -709,31 +831,52 @@ class Session:
         shutil.rmtree(self.root, ignore_errors=True)
 
 
+PREFETCH_OPS = ("prefetch_stale", "getfo_shrunk", "readv_past", "prefetch_read_past")
+BLOB = bytes((11 * k + 5) % 251 for k in range(100000))
+SHRINK = {}
+
+
 def live_program(rng):
-    """Pipelined writes interleaved with stat / listdir / read on the same session."""
+    """Pipelined writes interleaved with stat / listdir / read / prefetch / readv on the same session."""
     prog = []
     n = rng.choice([3, 8, 20])
     for _ in range(n):
         r = rng.random()
-        if r < 0.5:
+        if r < 0.4:
             prog.append(("w", rng.choice([1, 5, 30, 70, 110, 130])))
-        elif r < 0.7:
+        elif r < 0.5:
             prog.append(("stat",))
-        elif r < 0.85:
+        elif r < 0.6:
             prog.append(("listdir",))
-        else:
+        elif r < 0.7:
             prog.append(("read",))
+        elif r < 0.8:
+            prog.append(("prefetch_stale", rng.choice([1, 3, 10]), rng.random() < 0.5))
+        elif r < 0.88:
+            prog.append(("getfo_shrunk", rng.choice([0, 1, 32768, 70000, 99999])))
+        elif r < 0.95:
+            prog.append(("readv_past", rng.choice([1, 5000, 200000])))
+        else:
+            prog.append(("prefetch_read_past",))
     return prog
 
 
-def run_live(sess, prog, name):
+def _local(sess, name, data):
+    with open(os.path.join(sess.root, name), "wb") as fh:
+        fh.write(data)
+
+
+def run_live(sess, prog, name, progress):
+    """Returns True, or a string naming what came out wrong."""
     sftp = sess.sftp
-    with sftp.open("/other.bin", "wb") as g:
-        g.write(b"0123456789" * 100)
+    _local(sess, "other.bin", b"0123456789" * 100)
+    _local(sess, "blob.bin", BLOB)
     f = sftp.open(name, "wb", 0)
     f.set_pipelined(True)
     total = 0
-    for op in prog:
+    n = len(BLOB)
+    for i, op in enumerate(prog):
+        progress["op"] = (i, op)
         if op[0] == "w":
             for k in range(op[1]):
                 if k % 25 == 24:
@@ -744,45 +887,114 @@ def run_live(sess, prog, name):
             sftp.stat("/other.bin")
         elif op[0] == "listdir":
             sftp.listdir("/")
-        else:
+        elif op[0] == "read":
             with sftp.open("/other.bin", "rb") as g:
                 g.read(100)
+        elif op[0] == "prefetch_stale":
+            # the size given to prefetch is too large: the last prefetch requests are answered with EOF
+            with sftp.open("/blob.bin", "rb") as g:
+                g.prefetch(n + op[1] * 32768)
+                if op[2]:
+                    sftp.stat("/other.bin")
+                    sftp.listdir("/")
+                if g.read() != BLOB:
+                    return "prefetch_stale: wrong data"
+        elif op[0] == "getfo_shrunk":
+            # the file shrinks between getfo's stat and its reads
+            _local(sess, "shrink.bin", BLOB)
+            SHRINK["path"], SHRINK["size"] = os.path.join(sess.root, "shrink.bin"), op[1]
+            out = io.BytesIO()
+            try:
+                sftp.getfo("/shrink.bin", out)
+            finally:
+                SHRINK.clear()
+            if out.getvalue() != BLOB[:op[1]]:
+                return "getfo_shrunk: wrong data (%d bytes for %d)" % (len(out.getvalue()), op[1])
+        elif op[0] == "readv_past":
+            with sftp.open("/blob.bin", "rb") as g:
+                parts = list(g.readv([(n - 100, 100), (n + op[1], 100)]))
+                sftp.stat("/other.bin")
+                g.seek(n - 50)
+                tail = g.read(500)
+                if parts != [BLOB[-100:], b""] or tail != BLOB[-50:]:
+                    return "readv_past: wrong data"
+        else:
+            with sftp.open("/blob.bin", "rb") as g:
+                g.prefetch()
+                g.seek(n + 1000)
+                if g.read(100) != b"":
+                    return "prefetch_read_past: data past EOF"
+                g.seek(0)
+                if g.read(10) != BLOB[:10]:
+                    return "prefetch_read_past: wrong data"
+    progress["op"] = (len(prog), ("close",))
     f.close()
-    return sftp.stat(name).st_size == total
+    return True if sftp.stat(name).st_size == total else "pipelined file has the wrong size"
 
 
-def live_part(ctx, nprogs):
+def install_shrink():
+    """The in-process server truncates SHRINK['path'] to SHRINK['size'] when a file is next opened."""
+    from _stub_sftp import StubSFTPServer
+    orig = StubSFTPServer.open
+
+    def open_(self, path, flags, attr):
+        if SHRINK.get("path"):
+            with open(SHRINK["path"], "r+b") as fh:
+                fh.truncate(SHRINK["size"])
+            SHRINK.pop("path", None)
+        return orig(self, path, flags, attr)
+
+    StubSFTPServer.open = open_
+    return StubSFTPServer, orig
+
+
+def live_part(ctx, nprogs, only=None):
     rng = ctx.rng
     sess = Session(ctx.repo)
+    cls, orig_open = install_shrink()
     try:
-        progs = [[("w", 60), ("stat",), ("w", 120)]] + [live_program(rng) for _ in range(nprogs)]
+        progs = [[("w", 60), ("stat",), ("w", 120)],
+                 [("getfo_shrunk", 70000), ("w", 3), ("prefetch_stale", 3, True), ("w", 3), ("readv_past", 5000),
+                  ("prefetch_read_past",)]]
+        progs += [live_program(rng) for _ in range(nprogs)]
+        if only is not None:
+            progs = [only]
         for j, prog in enumerate(progs):
-            ctx.count(("live", repr(prog)), kind="live-interleaving")
+            ctx.count(("live", repr(prog)), kind="live-interleaving" +
+                      ("+prefetch" if any(op[0] in PREFETCH_OPS for op in prog) else ""))
             name = "/live%d.bin" % j
-            st, v = with_watchdog(lambda: run_live(sess, prog, name), 20.0)
+            progress = {}
+            st, v = with_watchdog(lambda: run_live(sess, prog, name, progress), 20.0)
             if st == "hang":
                 # the session is wedged: retry once on a new one before believing it
                 sess.close()
                 sess = Session(ctx.repo)
-                st, v = with_watchdog(lambda: run_live(sess, prog, name), 20.0)
+                progress = {}
+                st, v = with_watchdog(lambda: run_live(sess, prog, name, progress), 20.0)
                 if st == "hang":
-                    ctx.fail(BLOCK_KEY, "a program interleaving pipelined writes with other requests on one "
-                             "session never completes (watchdog, twice) although the server answers every request",
-                             case={"live_program": prog}, expected="completes", observed="hang")
+                    i, op = progress.get("op", (-1, ("?",)))
+                    key = BLOCK_KEY if op[0] == "w" else "client-blocks:" + op[0]
+                    ctx.fail(key, "operation %d %r of a program interleaving pipelined writes, prefetches and other "
+                             "requests on one session never returns (watchdog 20 s, twice) although the server "
+                             "answers every request" % (i, op),
+                             case={"live_program": prog, "blocked_at": i, "operation": op}, expected="completes",
+                             observed="hang")
                     sess.close()
                     sess = Session(ctx.repo)
                     break           # one confirmed hang is enough; every further one costs two watchdog periods
             if st == "exc":
-                ctx.fail("live-program-raises", "a fault-free program raised %r" % (v,), case={"live_program": prog},
-                         observed=repr(v))
+                ctx.fail("live-program-raises", "a fault-free program raised %r at %r" % (v, progress.get("op")),
+                         case={"live_program": prog}, observed=repr(v))
             elif v is not True:
-                ctx.fail("live-program-size", "a fault-free pipelined program left a file of the wrong size",
-                         case={"live_program": prog})
+                ctx.fail("live-program-result", "a fault-free program misbehaved: %s" % (v,),
+                         case={"live_program": prog}, observed=v)
             try:
                 os.unlink(os.path.join(sess.root, "live%d.bin" % j))
             except OSError:
                 pass
     finally:
+        cls.open = orig_open
+        SHRINK.clear()
         sess.close()
 
 
@@ -798,16 +1010,16 @@ def run(ctx):
                 "distinct; client programs of fewer than 3 operations are counted trivial.")
     ctx.trusted += ["model coq/Model/C30.v is hand-written; tied to sftp_server.py / sftp_client.py / sftp_file.py by "
                     "this differential run (vm_compute of the model's own definitions)",
-                    "_check_file treated as a black box (its packets are fed to the model as an oracle input)"]
+                    "the results of the handle.read calls _check_file makes are oracle inputs of the model (recorded from the run)"]
     ctx.assumptions += ["request numbers stay below 2^32", "the channel delivers packets in order (C17/C21)",
-                        "_check_file sends exactly one packet or raises before sending (C32)"]
+]
     ctx.prove(GENS)
     t0 = time.time()
     server_part(ctx, 150 * scale)
     t1 = time.time()
     client_part(ctx, 60 * scale)
     t2 = time.time()
-    live_part(ctx, 3 * (3 if ctx.thorough else 1))
+    live_part(ctx, 4 * (3 if ctx.thorough else 1))
     ctx.log("timing: server %.1fs client %.1fs live %.1fs" % (t1 - t0, t2 - t1, time.time() - t2))
 
 
@@ -831,5 +1043,8 @@ def replay(ctx, rep):
             k = impl.index(98)
             ctx.fail(rep["key"], rep["what"], case=case, expected="returns or raises",
                      observed="blocked at operation %d" % k)
+    elif case.get("live_program"):
+        live_part(ctx, 0, only=[tuple(op) for op in case["live_program"]])
+        ctx.count(("replay-live", 0))
     else:
         run(ctx)
